@@ -7,6 +7,13 @@ post-selection, photon filter, precision, noise, added components, detectors) in
 (`prob_distribution`, `all_prob`, `evolve`, `prob_amplitude`; `Simulator.probs_svd / probs / evolve`;
 `Stepper.evolve / probs`; `Processor.probs`).
 
+Three streams of histories: recorded ones (corpus/C05, directed), random ones, and enumerated ones — for the
+backends every history over a reduced alphabet up to a length, for Simulator / Stepper / Processor every ordered
+pair of configuration steps around a query asked twice (`pairwise_*`: a step, a query that fills the caches, a
+second step that ought to invalidate them, the query again), which is the skeleton every stale cache needs.
+A mutable argument (mask list, heralds dict, NoiseModel) comes in two flavours: a new object per call, or ONE
+object of the caller updated in place through its public API and handed over again ("same").
+
 After EVERY query three things are compared:
 
 * direct oracle (independent of Lean): the harness tracks the configuration (the last value given for
@@ -33,6 +40,8 @@ import math
 import multiprocessing as mp
 import os
 import random
+import shutil
+import tempfile
 import time
 
 from . import core
@@ -1473,13 +1482,92 @@ def compare_model(chk, h, res, reply):
 # ------------------------------------------------------------------------------------------------
 # workers
 # ------------------------------------------------------------------------------------------------
+_MARK_DIR = None        # set before the pool forks: every worker leaves the history it is running there
+
+
+def _mark(h, label=None):
+    if _MARK_DIR is None:
+        return
+    path = os.path.join(_MARK_DIR, "%d.json" % os.getpid())
+    if h is None:
+        if os.path.exists(path):
+            os.remove(path)
+        return
+    with open(path + ".tmp", "w") as f:
+        json.dump({"label": label, "h": h}, f)
+    os.replace(path + ".tmp", path)
+
+
+def _probe(h):
+    run_history(h, stop_at_first=False)
+
+
+def _alive(pid):
+    try:
+        os.kill(pid, 0)
+    except ProcessLookupError:
+        return False
+    except PermissionError:
+        return True
+    try:        # a zombie is dead
+        with open("/proc/%d/stat" % pid) as f:
+            return f.read().rsplit(")", 1)[1].split()[0] != "Z"
+    except OSError:
+        return False
+
+
+def dead_worker_histories():
+    """the histories that were running in workers which no longer exist"""
+    out = []
+    for path in sorted(glob.glob(os.path.join(_MARK_DIR, "*.json"))):
+        pid = int(os.path.basename(path)[:-5])
+        if not _alive(pid):
+            try:
+                out.append(json.load(open(path)))
+            except Exception:
+                pass
+    return out
+
+
+def report_native_crashes(chk, marks):
+    """re-run each history a dead worker left behind in a process of its own: the process dying on a signal is the
+    implementation crashing on that concrete (legal) history"""
+    ctx = mp.get_context("fork")
+    found = False
+    for mk in marks:
+        pr = ctx.Process(target=_probe, args=(mk["h"],))
+        pr.start()
+        pr.join(120)
+        if pr.is_alive():
+            pr.kill()
+            pr.join()
+            continue
+        if pr.exitcode is not None and pr.exitcode < 0:
+            h = mk["h"]
+            found = True
+            chk.case((h["family"], h["variant"], "native-crash"), True, {"ops": h["ops"][:12]})
+            chk.fail("violation", f"native-crash:{h['family']}:{h['variant']}",
+                     f"the process running the implementation dies on signal {-pr.exitcode} while serving this "
+                     f"history (reproduced in a process of its own): {json.dumps(h['ops'])[:600]}",
+                     {"history": h, "source": mk.get("label")})
+    return found
+
+
 def _work(job):
     """job = (label, [history…]) -> results list (picklable)"""
     label, hs = job
+    try:
+        return _work_inner(label, hs)
+    finally:
+        _mark(None)
+
+
+def _work_inner(label, hs):
     out = []
     nshrunk = 0
     for h in hs:
         t0 = time.time()
+        _mark(h, label)
         try:
             res = run_history(h)
         except Exception as e:          # harness problem
@@ -1682,7 +1770,9 @@ def run(chk: core.Check):
         "tolerance 1e-9 + 1e-9|x|; the Lean model carries provenance (which configuration an answer belongs to), "
         "not the numbers",
         "legal histories only: a mask has the length of the circuit it meets; backend parameter changes are followed "
-        "by set_circuit (the backend snapshots the unitary); Simulator histories keep one circuit size",
+        "by set_circuit (the backend snapshots the unitary); Simulator histories keep one circuit size; a mutable "
+        "argument (mask list, heralds dict, NoiseModel) updated in place is always handed over again before the next "
+        "query (an in-place update the object is never told about is not a legal operation)",
         "Simulator model: masked and unmasked evaluation agree after herald post-selection (C04); "
         "Stepper model: describe() is injective on the parameter values used",
         "exqalibur kernels are deterministic functions of their arguments",
@@ -1741,7 +1831,7 @@ def run(chk: core.Check):
             return hs
         return hs[seed_rng.randrange(stride)::stride]
     for v, stride in (("SLOS", 1), ("Naive", 8), ("SLAP", 4)):
-        hs = part_of(pairwise_simulator(v, random.Random(seed_rng.getrandbits(64)), chk.pick(300, 4000),
+        hs = part_of(pairwise_simulator(v, random.Random(seed_rng.getrandbits(64)), chk.pick(300, 2000),
                                         chk.pick(6, None)), stride)
         for part in _chunks(hs, chk.pick(6, 12)):
             jobs.append((f"pairwise:simulator:{v}", part))
@@ -1754,13 +1844,33 @@ def run(chk: core.Check):
             jobs.append((f"pairwise:processor:{v}", part))
     jobs.sort(key=lambda j: (j[0] not in ("corpus", "directed"), -len(j[1])))         # largest jobs first
 
+    global _MARK_DIR
+    _MARK_DIR = tempfile.mkdtemp(prefix="c05-marks-")
     ctx = mp.get_context("fork")
-    with ctx.Pool(min(14, os.cpu_count() or 4)) as pool:
-        # a worker killed by a native crash would make the pool wait for ever
-        try:
-            results = pool.map_async(_work, jobs, chunksize=1).get(timeout=chk.pick(170, 850))
-        except mp.TimeoutError:
-            raise RuntimeError("a worker process did not return (native crash of exqalibur or a hang) — harness problem")
+    try:
+        with ctx.Pool(min(14, os.cpu_count() or 4)) as pool:
+            # a worker killed by a native crash makes the pool wait for ever: watch for workers that disappeared
+            # while running a history, and report that history
+            pending = pool.map_async(_work, jobs, chunksize=1)
+            deadline = time.time() + chk.pick(170, 850)
+            marks = []
+            while not pending.ready():
+                pending.wait(2)
+                if pending.ready():
+                    break
+                marks = dead_worker_histories()
+                if marks or time.time() > deadline:
+                    break
+            if not pending.ready():
+                pool.terminate()
+                if marks and report_native_crashes(chk, marks):
+                    return          # the run stops here (a violation outranks the generator statistics)
+                raise RuntimeError("a worker process did not return (native crash of exqalibur that could not be "
+                                   "reproduced, or a hang) — harness problem")
+            results = pending.get()
+    finally:
+        shutil.rmtree(_MARK_DIR, ignore_errors=True)
+        _MARK_DIR = None
 
     auto_filter_probe(chk)
     chk.lean = core.LeanDriver("C05")
